@@ -514,13 +514,13 @@ theorem C04_getitem_errclass (t : Val) (s : Str) (e : PyErr) (hp : PlainTree t)
   · subst hm; exact absurd h (C04_fuel_bound t s hp fuel hf Val.none).2.1
   · exact Or.inr hm
 
-example : termFuel exTree2 ['r', '[', 'i', 'd', '=', '2', ']', '/', 'w'] = 122 := by decide +kernel
-example : termFuel exTree2 ['r', '[', '-', '1', ']', '/', '.', '.', '/', 'n', 'e', 'w'] = 135 := by decide +kernel
-example : termFuel exTree2 ['*', '/', 'x'] = 122 := by decide +kernel
-example : (XPath.get 122 exTree2 ['r', '[', 'i', 'd', '=', '2', ']', '/', 'w'] .none).2 = .ok (.list .n0 [.str ['y']]) := by
+example : termFuel exTree2 ['r', '[', 'i', 'd', '=', '2', ']', '/', 'w'] = 123 := by decide +kernel
+example : termFuel exTree2 ['r', '[', '-', '1', ']', '/', '.', '.', '/', 'n', 'e', 'w'] = 136 := by decide +kernel
+example : termFuel exTree2 ['*', '/', 'x'] = 123 := by decide +kernel
+example : (XPath.get 123 exTree2 ['r', '[', 'i', 'd', '=', '2', ']', '/', 'w'] .none).2 = .ok (.list .n0 [.str ['y']]) := by
   decide +kernel
-example : (∃ v, (XPath.get 122 exTree2 ['*', '/', 'x'] (.str ['D'])).2 = .ok v) :=
-  ((C04_get_total exTree2 ['*', '/', 'x'] (.str ['D']) exTree2_plain 122 (by decide +kernel)).1).resolve_right
+example : (∃ v, (XPath.get 123 exTree2 ['*', '/', 'x'] (.str ['D'])).2 = .ok v) :=
+  ((C04_get_total exTree2 ['*', '/', 'x'] (.str ['D']) exTree2_plain 123 (by decide +kernel)).1).resolve_right
     (by decide +kernel)
 -- a path with a `new()` step (not `Safe`): the bound covers it, `get` returns the default
 theorem exTree_plain : PlainTree exTree := by
